@@ -349,23 +349,37 @@ def real_families(ctx, name, n_main, n_def, props, seed_off=0, prom=False, want=
             by host name (localhost -> loopback: forbidden; fake-DNS names -> public: allowed / ULA: forbidden)
     In both, every other behaviour drives Handle with the packet conn of service.NewListenerManager().ListenPacket (the
     production path), the others with a plain net.ListenUDP socket.  Returns [(family, behs, trace, sums)]."""
-    out = []
-    # focus: two clients, one key, destinations {A, port-53 B, unsendable}: a send that FAILS on a live association (the
-    #        association, its deadline and its socket must stay), a DNS query answered by another host first, ...
-    for fam, gencfg, tracecfg, n, validator in (("main", "Gen_UdpNatReal.cfg", "UdpNatTraceReal.cfg", n_main, "loopback"),
-                                                ("def", "Gen_UdpNatRealDef.cfg", "UdpNatTraceRealDef.cfg", n_def, "default"),
-                                                ("focus", "Gen_UdpNatRealFocus.cfg", "UdpNatTraceReal.cfg", n_focus, "loopback")):
-        if n <= 0:
-            continue
+    # focus: two clients (+ one that only ever names the unsendable destination), one key, destinations {A, port-53 B,
+    #        unsendable}: a send that FAILS on a live association or as the very first datagram (the association, its deadline
+    #        and its socket must stay / it must still be reclaimed), a DNS query answered by another host first, empty payloads
+    # The families are independent (own behaviours, own driver processes, own trace validation): they run side by side.
+    import concurrent.futures
+    driver(ctx)      # build once, before the threads
+    fams = [f for f in (("main", "Gen_UdpNatReal.cfg", "UdpNatTraceReal.cfg", n_main, "loopback"),
+                        ("def", "Gen_UdpNatRealDef.cfg", "UdpNatTraceRealDef.cfg", n_def, "default"),
+                        ("focus", "Gen_UdpNatRealFocus.cfg", "UdpNatTraceReal.cfg", n_focus, "loopback")) if f[3] > 0]
+
+    def one(f):
+        fam, gencfg, tracecfg, n, validator = f
         behs = gen(ctx, gencfg, n, seed=ctx.seed + seed_off + {"main": 0, "def": 500009, "focus": 900001}[fam])
-        trace, sums = run_real(ctx, behs, "%s-%s" % (name, fam), prom=prom, validator=validator)
+        trace, sums = run_real(ctx, behs, "%s-%s" % (name, fam), prom=prom, validator=validator, procs=min(8, len(behs)))
         desc = "real sockets, %s validator%s" % ({"main": "loopback+public", "focus": "loopback+public (focused family: failing sends, DNS + other host)"}.get(
-            fam, "default (RequirePublicIP), host-name destinations"),
-                                                 ", Prometheus collectors" if prom else "")
+            fam, "default (RequirePublicIP), host-name destinations"), ", Prometheus collectors" if prom else "")
         validate(ctx, trace, tracecfg, props, desc, behs)
         summary_violations(ctx, sums, behs, desc, set(want))
-        out.append((fam, behs, trace, sums))
-    return out
+        return (fam, behs, trace, sums)
+
+    with concurrent.futures.ThreadPoolExecutor(max_workers=3) as ex:
+        futs = [ex.submit(one, f) for f in fams]
+        res, errs = [], []
+        for fu in futs:
+            try:
+                res.append(fu.result())
+            except Exception as e:       # let the other families finish (their verdicts count), then report
+                errs.append(e)
+    if errs:
+        raise errs[0]
+    return res
 
 
 def window(ctx, props, desc="datagram during the teardown of the client's previous association"):
